@@ -24,7 +24,10 @@ def run_seed(sid):
             return sid, {"error": "patch does not apply: " + p.stdout.decode()[-300:]}
         vcopy = os.path.join(work, "verif")
         shutil.copytree(V, vcopy, ignore=shutil.ignore_patterns(".git", "evidence", "replays"))
-        for c in checks:
+        mine = checks
+        if os.environ.get("MATRIX_OWN"):
+            mine = [json.load(open(os.path.join(V, "seeded", sid, "meta.json")))["breaks_property"]]
+        for c in mine:
             env = dict(os.environ, VERIF_REPO=repo, VERIF_SEED=os.environ.get("VERIF_SEED", "1"))
             t0 = time.time()
             q = subprocess.run([os.path.join(vcopy, "vcheck"), c, "quick"], cwd=vcopy, env=env, stdout=subprocess.PIPE, stderr=subprocess.STDOUT)
